@@ -9,6 +9,10 @@ import XalanModel.C04.CommentPIProofs
 import XalanModel.C04.CommentProofs
 import XalanModel.C04.WellFormedProofs
 import XalanModel.C04.TreeProofs
+import XalanModel.C04.CDataTopProofs
+import XalanModel.C04.IndentWsProofs
+import XalanModel.C04.DocProofs
+import XalanModel.C04.DocReaderProofs9
 /-!
 # C04 — XML output is well-formed and parses back to exactly the result tree
 
@@ -266,29 +270,85 @@ event-driven serializer (element stack `m_elemStack`, the start tag's `>` deferr
 until the first child that writes something, `/>` when no child wrote anything) produces exactly the items of
 the recursive definition `serNode`: `<n attrs/>` if every child is empty character data, otherwise
 `<n attrs>` children `</n>` — including which error is raised when a leaf fails. With `content_roundtrip`,
-`attr_roundtrip`, `comment_roundtrip` for the leaves this is the whole document except (not proved): a reader
-for the tag syntax itself (names, `="…"` delimiters) and the CDATA leaf. -/
+`attr_roundtrip`, `cdata_roundtrip`, `comment_roundtrip` for the leaves this is the whole document except (not proved):
+a reader for the tag syntax itself (names, `="…"` delimiters).  The prolog is `writeXMLHeader` (XML declaration unless
+omitted and no standalone; standalone pseudo-attribute; line break before a DOCTYPE) and `rootDoctype`: the
+`<!DOCTYPE name PUBLIC "…" "…">` / `SYSTEM` declaration generated by the first start tag when a system identifier is set;
+an XHTML public identifier makes empty elements end in ` />`. -/
 theorem document_structure (c : Cfg) (t : XNode) :
     serializeItems c (events t) =
-      (writeXMLHeader c).bind fun h => (serNode c t).bind fun a => pure (h ++ a) := by
+      (writeXMLHeader c).bind fun h => (rootDoctype c t).bind fun d => (serNode c t).bind fun a => pure (h ++ d ++ a) := by
   have hn := node_ok c t [] []
   simp only [List.append_nil] at hn
+  have hr : runEvents c (events t) [] = (serNode c t).bind fun a => pure a := by
+    rw [hn]
+    cases serNode c t with
+    | error e => rfl
+    | ok a => cases hq : silent t <;> simp [pteOf, hq, parentTagEnd, runEvents, Except.bind, pure, Except.pure]
+  have hd : runEventsD c (events t) = (rootDoctype c t).bind fun d => (runEvents c (events t) []).bind fun r => pure (d ++ r) := by
+    cases t with
+    | elem n a kids => simp only [events, runEventsD, rootDoctype, bind]
+    | text s =>
+      simp only [events, runEventsD, runEvents, rootDoctype, bind, Except.bind, pure, Except.pure]
+      cases stepEvent c [] (Event.characters (s ++ [0]) s.length) <;> simp
+    | cdata s =>
+      simp only [events, runEventsD, runEvents, rootDoctype, bind, Except.bind, pure, Except.pure]
+      cases stepEvent c [] (Event.cdata (s ++ [0]) s.length) <;> simp
+    | comment s =>
+      simp only [events, runEventsD, runEvents, rootDoctype, bind, Except.bind, pure, Except.pure]
+      cases stepEvent c [] (Event.comment s) <;> simp
+    | pi tg d =>
+      simp only [events, runEventsD, runEvents, rootDoctype, bind, Except.bind, pure, Except.pure]
+      cases stepEvent c [] (Event.pi tg d) <;> simp
   unfold serializeItems
   simp only [bind, Except.bind]
   cases writeXMLHeader c with
   | error e => rfl
   | ok h =>
-    simp only [hn, Except.bind]
-    cases serNode c t with
+    simp only [hd, hr, Except.bind]
+    cases rootDoctype c t with
     | error e => rfl
-    | ok a =>
-      cases hq : silent t <;>
-        simp [pteOf, hq, parentTagEnd, runEvents, Except.bind, pure, Except.pure]
+    | ok d =>
+      simp only
+      cases serNode c t with
+      | error e => rfl
+      | ok a => simp [Except.bind, pure, Except.pure]
 
 example : events (.elem [114] [([107], [34])] [.text [], .elem [97] [] [.text [60]], .comment [120]])
     = [.startElement [114] [([107], [34])], .characters [0] 0, .startElement [97] [], .characters [60, 0] 1,
        .endElement [97], .comment [120], .endElement [114]] := by
   simp [events, eventsL]
+
+/-! ## indent="yes" (`XalanIndentWriter`) -/
+
+/-- **indent_off_same.** With indentation off (`XalanDummyIndentWriter`) the model with the indent state is the
+model without it, for every configuration and event sequence — every theorem of this file about `serializeItems`
+is a theorem about the `doIndent == false` instances of `FormatterToXMLUnicode`. -/
+theorem indent_off_same (c : Cfg) (amount : Nat) (evs : List Event) :
+    serializeItemsI c false amount evs = serializeItems c evs :=
+  serializeItemsI_off c amount evs
+
+/-- **indent_only_inserts_whitespace** (`_partial`: the erasure half of "round trip modulo inserted whitespace").
+For every configuration, indent amount and event sequence: the indenting serializer fails exactly when the plain
+one fails (same error), and otherwise its output is the plain output with line feeds and spaces *inserted*
+(`InsertsWs`: nothing else changed, removed or reordered).  `indent_never_after_text` says where: never directly
+after character data (`m_isprevtext`) and never inside an element that already has character data
+(`m_ispreserve`).  Not proved here: that the inserted blocks always fall between two markup constructs of the
+re-parsed tree (needs the document reader); the check evaluates exactly that on the real output
+(`equal_modulo_indent`). -/
+theorem indent_only_inserts_whitespace (c : Cfg) (ha : AsciiOk c.enc) (on : Bool) (amount : Nat) (evs : List Event) :
+    AgreeOut (serializeItemsI c on amount evs) (serializeItems c evs) :=
+  serializeItemsI_ws c ha on amount evs
+
+/-- what `indent()` writes: line feeds and spaces only; nothing after text or in text-bearing content -/
+theorem indent_never_after_text (e : Enc) (ha : AsciiOk e) (s : IndSt) :
+    ∃ it, indentItems e s = .ok it ∧ (∀ u ∈ unitsOf it, u = 10 ∨ u = 32) ∧
+      ((s.isprevtext = true ∨ s.ispreserve = true ∨ s.on = false) → it = []) :=
+  indentItems_ws e ha s
+
+example : InsertsWs [60, 114, 62, 10, 32, 60, 97, 47, 62, 10, 60, 47, 114, 62, 10] [60, 114, 62, 60, 97, 47, 62, 60, 47, 114, 62] := by
+  refine .keep _ (.keep _ (.keep _ (.ins _ (Or.inl rfl) (.ins _ (Or.inr rfl) (.keep _ (.keep _ (.keep _ (.keep _
+    (.ins _ (Or.inl rfl) (.keep _ (.keep _ (.keep _ (.keep _ (.ins _ (Or.inl rfl) .nil))))))))))))))
 
 /-! ## generated tables and CDATA variant -/
 
@@ -316,6 +376,108 @@ theorem generated_cdata_is_known_variant :
     (cdataBracketOutsideWritesOpen = true ∧ cdataReopenAtEnd = false ∧ cdataCloseOnlyIfInside = true ∧
       ∀ i ∈ List.range 6, ∀ n ∈ List.range 6, cdataGuard i n = CDataCfg.fixed.guard i n) := by
   decide
+
+/-! ## CDATA sections: the code of the working tree -/
+
+/-- the CDATA code read from the working tree is the repaired one: look-ahead guard `length - i > 2`,
+`<![CDATA[` re-opened before a split that follows a reference, no re-open after the loop, references for
+CR / NEL / LSEP / restricted characters, pair-consuming UTF-16 writer.  (Breaks — by name — when any of these is
+changed in `FormatterToXMLUnicode.hpp` / `XalanUTF16Writer.hpp`.) -/
+theorem generated_cdata_current (e : Enc) (hfx : e.fx = Fixes.generated) (ha : AsciiOk e) :
+    CDHyp CDataCfg.generated e := by
+  refine ⟨?_, by decide, by decide, by decide, by rw [hfx]; decide, by rw [hfx]; decide, ha⟩
+  intro i n h1 h2
+  simp only [CDataCfg.generated, cdataGuard]
+  congr 1
+  apply propext
+  constructor <;> intro h <;> omega
+
+/-- **cdata_roundtrip.** For every XML version, every writer family (UTF-8, UTF-16, other encoding with any
+representability predicate covering ASCII) and every sequence `cs` of XML `Char`s — including `]]>` (also
+overlapping, `]]]>`, at the end, after a reference), characters the encoding cannot represent, CR, NEL, LSEP,
+XML 1.1 restricted characters, supplementary characters —: `writeCDATA` of the working tree, given the UTF-16 form
+of `cs` as a NUL-terminated buffer, raises no error; its code units decode strictly to a character sequence
+`out`; and the XML reader for character data with CDATA sections (`readCD`: a section ends at the *first*
+`]]>`, references and literal text between sections) reads `out` back as exactly `cs`. -/
+theorem cdata_roundtrip (ver : Ver) (e : Enc) (hfx : e.fx = Fixes.generated) (ha : AsciiOk e) (cs : List Nat)
+    (hl : ∀ c ∈ cs, Spec.legalChar ver c = true)
+    (hlen : (Spec.utf16Encode cs).length < 18446744073709551616) :
+    ∃ items out, writeCDATA CDataCfg.generated ver e (Spec.utf16Encode cs ++ [0]) (Spec.utf16Encode cs).length = .ok items ∧
+      Spec.decodeOut e.kind (unitsOf items) = some out ∧ Spec.readCD ver out = some cs :=
+  writeCDATA_roundtrip CDataCfg.generated ver e (generated_cdata_current e hfx ha) cs hl hlen
+
+/-- the conclusion computed on a non-trivial string under US-ASCII: `]]]>é]]>\r` -/
+example :
+    (writeCDATA CDataCfg.fixed .v10 ⟨.other, fun c => decide (c < 128), Fixes.all⟩
+        (Spec.utf16Encode [93, 93, 93, 62, 0xE9, 93, 93, 62, 13] ++ [0]) 9).toOption.bind
+      (fun items => Spec.readCD .v10 (unitsOf items)) = some [93, 93, 93, 62, 0xE9, 93, 93, 62, 13] := by
+  decide
+
+/-- **document_encoding** (`document_roundtrip`, second part). For every configuration of the working tree and every
+result tree `t` whose strings are XML characters (names, comment and PI data: characters the encoding can write
+literally): the serializer, given the UTF-16 form of the tree, raises no error and the code units it writes for
+the whole tree are exactly the output encoding of the *character-level document* `absNode t` —
+`<name attr="escaped value"…>`, escaped text, CDATA sections with their splits and references, `<!--data-->`,
+`<?target data?>`, `/>` for elements without written content — built from `absEscAll` / `absCDATA`, whose reading
+back is `content_roundtrip`, `attr_roundtrip`, `cdata_roundtrip`, `comment_roundtrip`.  Together with
+`document_structure` (events ↔ tree, prolog) what remains for `document_roundtrip` is a reader for the tag syntax
+of `absNode` on characters — no encodings, buffers, surrogates or event stack are left in that statement. -/
+theorem document_encoding (c : Cfg) (H : DocHyp c) (t : XNode) (hok : TreeOk c.ver c.enc t) :
+    ∃ items out, serNode c (toUnits t) = .ok items ∧
+      absNode c.ver (canEncOf c.enc) (spaceBeforeClose c) t = .ok out ∧ unitsOf items = Spec.encodeOut c.enc.kind out :=
+  node_enc c H t hok
+
+/-- **document_roundtrip.** For every configuration of the working tree (every XML version, every writer family, any
+representability predicate covering ASCII) and every result tree with an element root `t = <n a…>kids</n>` —
+any nesting depth, attributes, text, CDATA sections, comments, processing instructions; strings made of XML
+characters (`TreeOk`), and in the form a parser can return unchanged (`RTreeOk`: names without delimiters, no empty
+and no two adjacent character-data children, comment / PI data without `--`, trailing `-`, `?>`) —: the serializer,
+given the UTF-16 form of the tree, raises no error; the code units it writes decode strictly to a character sequence
+`out`; and the document reader (`Spec.readDoc`: start / end / empty-element tags with attribute values, text runs
+with entities, character references and CDATA sections, comments, PIs) reads `out` back as exactly the tree, CDATA
+sections being reported as text (`Spec.norm`).  With `document_structure` these items are what
+`serializeItems c (events (toUnits t))` writes after the prolog. -/
+theorem document_roundtrip (c : Cfg) (H : DocHyp c) (n : List Nat) (a : List (List Nat × List Nat)) (kids : List XNode)
+    (hok1 : TreeOk c.ver c.enc (.elem n a kids)) (hok2 : RTreeOk c.ver (.elem n a kids)) :
+    ∃ items out, serNode c (toUnits (.elem n a kids)) = .ok items ∧
+      Spec.decodeOut c.enc.kind (unitsOf items) = some out ∧
+      Spec.readDoc c.ver out = some (Spec.norm (.elem n a kids)) := by
+  obtain ⟨items, out, h1, h2, h3⟩ := node_enc c H (.elem n a kids) hok1
+  refine ⟨items, out, h1, ?_, readDoc_absNode c.ver (canEncOf c.enc) (spaceBeforeClose c) n a kids hok2 out h2⟩
+  rw [h3]
+  exact decodeOut_encodeOut c.enc.kind out (node_sc c.ver c.enc (spaceBeforeClose c) _ hok1 out h2)
+
+/-- the reader-side hypothesis is satisfiable by a tree that exercises every construct:
+`<r k="&quot;é"><a/>&lt;𝒳<!--x--><![CDATA[]]>é]]><?p d?></r>` (its `TreeOk` is the example after `document_encoding`) -/
+example : RTreeOk .v10 (.elem [114] [([107], [34, 0xE9])]
+    [.elem [97] [] [], .text [60, 0x1D4B3], .comment [120], .cdata [93, 93, 62, 0xE9], .pi [112] [100]]) := by
+  simp only [RTreeOk, RKidsOk, GoodName, RAttrsOk, textLike]
+  refine ⟨⟨by decide, by decide⟩, ?_, ?_⟩
+  · intro p hp; simp at hp; subst hp; exact ⟨⟨by decide, by decide⟩, by decide⟩
+  · refine ⟨⟨⟨by decide, by decide⟩, ?_, trivial⟩, ?_, ?_⟩
+    · intro p hp; simp at hp
+    · refine ⟨⟨by decide, by decide⟩, ?_, ?_⟩
+      · refine ⟨⟨by decide, by decide, by decide⟩, ?_, ?_⟩
+        · refine ⟨⟨by decide, by decide⟩, ?_, ?_⟩
+          · exact ⟨⟨⟨by decide, by decide⟩, by decide, by decide, by decide⟩, trivial, by simp [textLike]⟩
+          · simp [textLike]
+        · simp [textLike]
+      · simp [textLike]
+    · simp [textLike]
+
+/-- the hypotheses of `document_encoding` hold for the code of the working tree -/
+theorem generated_doc_hyp (c : Cfg) (hcd : c.cdata = CDataCfg.generated) (hfx : c.enc.fx = Fixes.generated)
+    (ha : AsciiOk c.enc) : DocHyp c :=
+  ⟨ha, by rw [hfx]; exact generated_fixes_consistent.1, by rw [hcd]; exact generated_cdata_current c.enc hfx ha⟩
+
+example : TreeOk .v10 ⟨.other, fun c => decide (c < 128), Fixes.all⟩
+    (.elem [114] [([107], [34, 0xE9])] [.text [60, 0x1D4B3], .cdata [93, 93, 62, 0xE9], .comment [120], .pi [112] [100]]) := by
+  simp only [TreeOk, KidsOkT, NameOk, AttrsOk, LiteralOk]
+  refine ⟨by decide, ?_, ?_⟩
+  · intro p hp; simp at hp; subst hp; exact ⟨by decide, by decide⟩
+  · refine ⟨by decide, ⟨by decide, by decide⟩, ?_, ⟨by decide, ?_⟩, trivial⟩
+    · intro c hc; simp at hc; subst hc; exact ⟨by decide, by decide, by decide, by decide, rfl⟩
+    · intro c hc; simp at hc; subst hc; exact ⟨by decide, by decide, by decide, by decide, rfl⟩
 
 /-! ## CDATA: the code as written violates the property (DESIGN §6 items 17, 18) -/
 
